@@ -103,6 +103,21 @@ pub fn run(run: &Run) {
         }
         true
     });
+    enum_strings_padded(run, "enum_alpha_free_long_pads", &ALPHA_FREE, run.pick(3u32, 4u32), &|s, l| {
+        if check(run, s, l).is_err() {
+            shrink_report(run, Prof::Nick, Op::Enforce, s);
+            return false;
+        }
+        true
+    });
+    let pl: Vec<&str> = PAYLOADS_SPACE.iter().chain(PAYLOADS_FREE.iter()).copied().collect();
+    stress(run, "alignment_and_runs", &pl, &|s, l| {
+        if check(run, s, l).is_err() {
+            shrink_report(run, Prof::Nick, Op::Enforce, s);
+            return false;
+        }
+        true
+    });
     // triples of NFKC-space producers (thorough: all; quick: every 7th) in two templates
     let stride = run.pick(7usize, 1usize);
     run.par("nfkc_space_triples", stride == 1, |tid, n, l| {
